@@ -18,7 +18,9 @@ RULE = (
     "content(t) as exact pid->Fraction dictionaries, every target must be present and no key may refer to a label "
     "outside the two bases; untouched labels must map to themselves with coefficient 1. 'compose': "
     "inverse*forward and forward*inverse are exact identity maps on the full 14 labels. 'params': "
-    "qed_rotation_parameters(nf) equals a..f of Matching.rst. Non-trivial = everything except the nf=4 QED "
+    "qed_rotation_parameters(nf) equals a..f of Matching.rst. 'content' is also asked after every single (thorough: every "
+    "ordered pair of) earlier request(s) for any of the 12 maps, starting from a freshly loaded module (a map may not "
+    "depend on what was asked before). Non-trivial = everything except the nf=4 QED "
     "forward entries pinned by tests/eko/evolution_operator/test_flavors.py; distinct by the case."
 )
 ASSUMPTIONS = [
@@ -29,7 +31,8 @@ ASSUMPTIONS = [
 ]
 LEVEL_TEXT = (
     "All 12 (nf, basis, direction) maps are enumerated and compared exactly with the documented flavour content of "
-    "both bases, so the statement is decided exhaustively on its whole (finite) domain."
+    "both bases, so the statement is decided exhaustively on its whole (finite) domain for a freshly loaded module; request histories are "
+    "enumerated up to one (quick) / two (thorough) earlier requests."
 )
 
 NFS = (4, 5, 6)
@@ -43,6 +46,15 @@ def enumerate_cases(tier):
                 cases.append({"kind": "content", "nf": nf, "qed": qed, "inverse": inv})
             cases.append({"kind": "compose", "nf": nf, "qed": qed})
         cases.append({"kind": "params", "nf": nf})
+    # request histories: the same maps asked for after other maps, from a freshly loaded module (nothing may be remembered
+    # between requests); quick: every single earlier request, thorough: every ordered pair of earlier requests
+    combos = [(nf, qed, inv) for nf in NFS for qed in (0, 1) for inv in (0, 1)]
+    priors = [[list(c)] for c in combos]
+    if tier != "quick":
+        priors += [[list(c), list(d)] for c in combos for d in combos]
+    for nf, qed, inv in combos:
+        for pr in priors:
+            cases.append({"kind": "content", "nf": nf, "qed": qed, "inverse": inv, "prior": pr})
     return cases
 
 
@@ -156,6 +168,19 @@ def check_case(case):
         nf, qed, inv = case["nf"], case["qed"], case["inverse"]
         res.classes = [f"content-{'qed' if qed else 'qcd'}-{'inv' if inv else 'fwd'}"]
         res.nontrivial = not (nf == 4 and qed == 1 and inv == 0)
+        if case.get("prior"):
+            import importlib
+
+            from eko.evolution_operator import flavors
+
+            importlib.reload(flavors)  # the case is the whole history since the module was loaded
+            res.classes.append(f"after-{len(case['prior'])}-earlier-requests")
+            res.nontrivial = True
+            for pnf, pqed, pinv in case["prior"]:
+                try:
+                    (flavors.rotate_matching_inverse if pinv else flavors.rotate_matching)(pnf, bool(pqed))
+                except Exception:  # noqa: BLE001 - judged by the case that asks for this map itself
+                    pass
         _check_content(nf, qed, inv, res)
     elif kind == "compose":
         res.classes = [f"compose-{'qed' if case['qed'] else 'qcd'}"]
@@ -169,4 +194,4 @@ def check_case(case):
 
 
 def budget(tier):
-    return dict(enum_shards=2, wall_s=60)
+    return dict(enum_shards=2 if tier == "quick" else 8, wall_s=60 if tier == "quick" else 600)
